@@ -226,7 +226,8 @@ func runC20(ctx *Ctx) error {
 				p.Lon = &lon
 			}
 			ml = append(ml, coord(p.Lat != nil, lat), coord(p.Lon != nil, lon))
-			speed := float64(r.Intn(400)) / 10
+			// set speeds include zero (a vessel at rest), tiny, negative and large values: "set" is about the pointer, not the value
+			speed := []float64{float64(r.Intn(400)) / 10, 0, 0.05, -1.5, 1234.5}[r.Intn(5)]
 			if combo&4 != 0 {
 				p.Speed = &speed
 				ml = append(ml, "some "+ts(fmt.Sprintf("%f", speed)))
